@@ -88,6 +88,12 @@ func c11RandLit(r *rand.Rand, form int) []byte {
 			bs = []byte(c11Multi[r.Intn(len(c11Multi))])
 		case x == 3:
 			bs = []byte{"%{}\"\\`$"[r.Intn(7)]}
+		case x == 4:
+			// a run of one special character (adjacent %, braces, quotes …)
+			c := "%}%$%"[r.Intn(5)]
+			for k := 2 + r.Intn(3); k > 0; k-- {
+				bs = append(bs, c)
+			}
 		default:
 			bs = []byte{byte(32 + r.Intn(95))}
 		}
